@@ -491,6 +491,50 @@ pub fn run(tier: Tier, seed: u64) -> i32 {
     });
     fams.push(json!({"family": "5: two tracks, three fragments; uuid / free boxes in the traf before the run, at the end of the traf, in the moof before the trafs, at the top level behind each fragment (15 non-empty subsets) x option tuples x 32/64-bit moof header", "movies": f5}));
 
+    // Family 6: long fragment sequences: 33 and 257 fragments whose option tuple and run length follow a pattern of
+    // period 1..2 over five tuples / run lengths {1, 2, 0, no run}; and single runs of 300 and 8200 samples with every set of per-sample columns
+    {
+        let five: Vec<Opt> = [0usize, 7, 123, 400, 959].iter().map(|&i| opts[i % opts.len()]).collect();
+        let mut items: Vec<(Vec<usize>, usize)> = vec![];
+        for period in 1..=2usize {
+            for code in 0..five.len().pow(period as u32) {
+                let pat: Vec<usize> = (0..period).map(|i| (code / five.len().pow(i as u32)) % five.len()).collect();
+                for nf in [33usize, 257] {
+                    items.push((pat.clone(), nf));
+                }
+            }
+        }
+        let f6 = items.len() as u64;
+        par(items, &mut l, |(pat, nf), l| {
+            let lens = [1usize, 2, 0, NO_TRUN, 3];
+            let m = LFragMovie {
+                movie_ts: 1000,
+                tracks: vec![LFragTrack { id: 1, codec: Codec::Avc, timescale: 12800, trex_default_duration: 9 }],
+                fragments: (0..*nf).map(|i| vec![mk_run(1, &five[pat[i % pat.len()]], lens[(i / 2 + pat[0]) % lens.len()], i as u32)]).collect(),
+                mehd: None,
+                large_moof: pat.len() == 2,
+                offsets_only: false,
+                fillers: 0,
+            };
+            judge("C09", "6:long_fragment_sequences", &m, l);
+        });
+        // every set of per-sample columns (durations y/n, composition offsets none/v0/v1; sizes always; flags by salt)
+        let mut long_runs = vec![];
+        for n in [300usize, 8200] {
+            for o in opts.iter().filter(|o| o.base == Base::DefaultBaseIsMoof && !o.before && o.fdd && o.tfdt_v == 1 && o.base_time == 5) {
+                long_runs.push((n, *o));
+            }
+        }
+        let f6b = long_runs.len() as u64;
+        par(long_runs, &mut l, |(n, o), l| {
+            for salt in 0..3u32 {
+                let m = LFragMovie { movie_ts: 1000, tracks: vec![LFragTrack { id: 1, codec: Codec::Aac, timescale: 48000, trex_default_duration: 9 }], fragments: vec![vec![mk_run(1, o, *n, salt)], vec![mk_run(1, o, 2, salt + 1)]], mehd: None, large_moof: false, offsets_only: false, fillers: 0 };
+                judge("C09", "6:long_runs", &m, l);
+            }
+        });
+        fams.push(json!({"family": "6: 33 and 257 fragments with option tuples / run lengths following patterns of period 1..2; single runs of 300 and 8200 samples with every set of per-sample columns followed by a second fragment", "movies": f6 + f6b}));
+    }
+
     ev.set("evaluations", json!(l.evaluations));
     ev.set("states", json!(l.evaluations));
     ev.set("transitions", json!(l.transitions));
